@@ -124,6 +124,17 @@ def scenario(exe, root, seed, stats):
             for i, c in enumerate(a.contents):
                 if i != keep: os.unlink(c)
             desc.append('only content copy %d survives' % keep)
+        # corrupted files do not always keep their time-stamp: a third of the damaged-in-place files get a new one
+        # (a corrupted block plus a wrong time-stamp is still damage of that one device)
+        if rng.chance(1, 2):
+            now_snap = a.snapshot()
+            for key, v in snap.items():
+                w = now_snap.get(key)
+                if v[0] == 'f' and w is not None and w[0] == 'f' and w[1] != v[1] and len(w[1]) == len(v[1]) and rng.chance(1, 3):
+                    p = a.path(key[0], key[1])
+                    os.utime(p, ns=(v[2] + 7_000_000_007, v[2] + 7_000_000_007))
+                    desc.append('%s/%r also has a new time-stamp' % key)
+                    stats['retimed'] = stats.get('retimed', 0) + 1
         stats['kinds'][kind] = stats['kinds'].get(kind, 0) + 1
         stats['damage_ops'] += len(desc)
         r = a.cmd('fix')
